@@ -142,49 +142,44 @@ theorem blocks_per_year : Sge.Gen.Consts.mint_BlocksPerYear = 6311520 := by deci
 
 /-! ### who may debit a custody account (C01, C12) -/
 
-/-- the functions that move coins out of a module account -/
-def debitFunctions : List String := ["x/orderbook/keeper.Keeper.refund", "utils.ModuleAccFunder.Refund"]
+/-- the functions that move coins out of a module account to a user: whichever functions of the current source call
+    `SendCoinsFromModuleToAccount` (derived from the regenerated table, so renaming a helper is not an event) -/
+def debitFunctions : List String :=
+  ((bankCalls.filter (fun c => c.method = "SendCoinsFromModuleToAccount")).map (·.fn)).eraseDups
 
-/-- `SendCoinsFromModuleToAccount` is called only inside the two refund helpers (and `SendCoinsFromModuleToModule`
-    only by x/mint, see `mint_bank_calls`). -/
+/-- `SendCoinsFromModuleToAccount` is called in two places only, one in x/orderbook and one in utils (the two refund
+    helpers), and `SendCoinsFromModuleToModule` only by x/mint (see `mint_bank_calls`). -/
 theorem module_debits_only_in_refund_helpers :
     (bankCalls.filter (fun c => c.method = "SendCoinsFromModuleToAccount" || c.method = "SendCoinsFromModuleToModule")).map
-      (fun c => (c.fn, c.method)) =
-      [ ("x/mint/keeper.Keeper.AddCollectedFees", "SendCoinsFromModuleToModule"),
-        ("x/orderbook/keeper.Keeper.refund", "SendCoinsFromModuleToAccount"),
-        ("utils.ModuleAccFunder.Refund", "SendCoinsFromModuleToAccount") ] := by decide
+      (fun c => (c.module, c.method)) =
+      [ ("mint", "SendCoinsFromModuleToModule"),
+        ("orderbook", "SendCoinsFromModuleToAccount"),
+        ("utils", "SendCoinsFromModuleToAccount") ] := by decide
 
-/-- distinct (function, custody account) pairs that hand a funder to a refund helper -/
+/-- distinct (module, custody account) pairs that hand a funder to a refund helper. The granularity is the module,
+    not the function: moving a payout into a helper of the same keeper is a refactoring, a debit of a custody account
+    from another module is new behaviour. -/
 def debitSites : List (String × String) :=
-  ((funderUses.filter (fun u => debitFunctions.contains u.callee)).map (fun u => (u.fn, u.account))).eraseDups
+  ((funderUses.filter (fun u => debitFunctions.contains u.callee)).map (fun u => (u.module, u.account))).eraseDups
 
-/-- Every place from which a custody account can be debited. A new one is an obligation of C01/C12 that the
-    models do not know. -/
+/-- Every module from which a custody account can be debited, and which account. A new pair is an obligation of
+    C01/C12 that the models do not know. -/
 theorem custody_debit_sites :
     debitSites =
-      [ ("x/orderbook/keeper.Keeper.BettorWins", "orderbook_liquidity_pool"),
-        ("x/orderbook/keeper.Keeper.RefundBettor", "bet_fee_collector"),
-        ("x/orderbook/keeper.Keeper.RefundBettor", "orderbook_liquidity_pool"),
-        ("x/orderbook/keeper.Keeper.WithdrawBetFee", "bet_fee_collector"),
-        ("x/orderbook/keeper.Keeper.WithdrawOrderBookParticipation", "orderbook_liquidity_pool"),
-        ("x/orderbook/keeper.Keeper.settleParticipation", "house_fee_collector"),
-        ("x/orderbook/keeper.Keeper.settleParticipation", "orderbook_liquidity_pool"),
-        ("x/reward/keeper.Keeper.DistributeRewards", "reward_pool"),
-        ("x/reward/keeper.msgServer.WithdrawFunds", "reward_pool") ] := by decide
+      [ ("orderbook", "orderbook_liquidity_pool"),
+        ("orderbook", "bet_fee_collector"),
+        ("orderbook", "house_fee_collector"),
+        ("reward", "reward_pool") ] := by decide
 
-/-- Every place that pays INTO a custody account through a funder. -/
+/-- Every module that pays INTO a custody account through a funder, and which account. -/
 theorem custody_credit_sites :
     ((funderUses.filter (fun u => u.callee = "x/orderbook/keeper.Keeper.fund" || u.callee = "utils.ModuleAccFunder.Fund")).map
-      (fun u => (u.fn, u.account))).eraseDups =
-      [ ("x/orderbook/keeper.Keeper.InitiateOrderBookParticipation", "house_fee_collector"),
-        ("x/orderbook/keeper.Keeper.InitiateOrderBookParticipation", "orderbook_liquidity_pool"),
-        ("x/orderbook/keeper.Keeper.ProcessWager", "bet_fee_collector"),
-        ("x/orderbook/keeper.Keeper.ProcessWager", "orderbook_liquidity_pool"),
-        ("x/reward/keeper.msgServer.CreateCampaign", "reward_pool"),
-        ("x/reward/keeper.msgServer.UpdateCampaign", "reward_pool") ] := by decide
+      (fun u => (u.module, u.account))).eraseDups =
+      [ ("orderbook", "house_fee_collector"),
+        ("orderbook", "orderbook_liquidity_pool"),
+        ("orderbook", "bet_fee_collector"),
+        ("reward", "reward_pool") ] := by decide
 
-/-- Funder values are used nowhere else (every use is one of the fund/refund helpers, or the address lookup in
-    `DistributeRewards`). -/
 theorem funder_uses_are_fund_or_refund :
     (funderUses.filter (fun u => !(debitFunctions ++ ["x/orderbook/keeper.Keeper.fund", "utils.ModuleAccFunder.Fund"]).contains u.callee)).map
       (fun u => (u.fn, u.callee)) = [("x/reward/keeper.Keeper.DistributeRewards", "GetModuleAcc")] := by decide
